@@ -1,0 +1,11 @@
+//go:build verif
+
+// Contracts for control transfers (read as text by /verif's govc; comment-only).
+
+package control
+
+//@ ignore func (t Transfer[R]) assertValid()
+//@ pure func (t Transfer[R]) Occurred() bool
+//@ pure func (t Transfer[R]) IsTransfer() bool
+//@ pure func (t Transfer[R]) IsRelease() bool
+//@ pure func (t Transfer[R]) IsAcquire() bool
